@@ -164,16 +164,20 @@ func vfC07Wiring(res *vrt.Result, local, remote int32, shards func(lcm int32) []
 		dir  string
 		conn *grpc.ClientConn
 	}{{"inbound", cl.FromRemote}, {"outbound", cl.FromLocal}} {
-		resp, err := adminservice.NewAdminServiceClient(side.conn).DescribeCluster(context.Background(), &adminservice.DescribeClusterRequest{})
-		mu.Lock()
-		counters[0]++
-		mu.Unlock()
-		if err != nil {
-			res.Violate("lcm/describe-cluster-fails", fmt.Sprintf("local=%d remote=%d %s: %v", local, remote, side.dir, err), replay)
-			continue
-		}
-		if int64(resp.HistoryShardCount) != lcm {
-			res.Violate("lcm/describe-cluster-shard-count", fmt.Sprintf("local=%d remote=%d: DescribeCluster through the %s server reports HistoryShardCount=%d, want lcm=%d", local, remote, side.dir, resp.HistoryShardCount, lcm), replay)
+		// the request as Temporal's own refresh sends it (no cluster name), and with the name of the cluster spelled out
+		// (as an operator tool does): the same cluster answers, so the same shard count is advertised
+		for _, name := range []string{"", "the-cluster-behind-the-proxy"} {
+			resp, err := adminservice.NewAdminServiceClient(side.conn).DescribeCluster(context.Background(), &adminservice.DescribeClusterRequest{ClusterName: name})
+			mu.Lock()
+			counters[0]++
+			mu.Unlock()
+			if err != nil {
+				res.Violate("lcm/describe-cluster-fails", fmt.Sprintf("local=%d remote=%d %s (cluster_name=%q): %v", local, remote, side.dir, name, err), replay)
+				continue
+			}
+			if int64(resp.HistoryShardCount) != lcm {
+				res.Violate("lcm/describe-cluster-shard-count", fmt.Sprintf("local=%d remote=%d: DescribeCluster (cluster_name=%q) through the %s server reports HistoryShardCount=%d, want lcm=%d", local, remote, name, side.dir, resp.HistoryShardCount, lcm), replay)
+			}
 		}
 	}
 	streamMethod := vfMethodTable["/temporal.server.api.adminservice.v1.AdminService/StreamWorkflowReplicationMessages"]
